@@ -64,7 +64,7 @@ def run(tier, repo):
         walk_steps(seq, lambda st, p: [scan_ret(x) for x in st if isinstance(x, dict)])
         if lits:
             rp.fail("NO-STATIC-BYTES", f["path"].split("::")[-1], site(f), "a byte literal is returned inside a parsed value", found=str(lits[0])[:200])
-    rp.floor("parser_functions_analysed", len(pfs), 190)
+    rp.floor("parser_functions_analysed", len(pfs), 150)
     # 2. extent confinement of the self-delimiting parsers
     for path, r in res.items():
         if "code" not in r:
@@ -137,7 +137,7 @@ def run(tier, repo):
                     rp.ok("WHO-MAY-COPY", short_site(c, owner), "%s in %s" % (cal.split("::")[-1], base_owner.split("::")[-1]), "allowed: " + ALLOWED_COPIES[k])
                 else:
                     rp.fail("WHO-MAY-COPY", "%s/%s" % (base_owner, cal.split("::")[-1]), short_site(c, owner), "bytes are copied by %s outside the sites allowed by design" % cal, found=cal)
-    rp.floor("mir_calls_scanned", n_calls, 1500)
+    rp.floor("mir_calls_scanned", n_calls, 1200)
     rp.floor("allowed_copy_sites_seen", len(seen_allowed), 2)
     # 5. signatures
     n_sig = 0
@@ -199,8 +199,8 @@ def run(tier, repo):
                 rp.fail("DEFRAG-NOCOPY", key + "/copy", site(f), "record bytes are copied into the internal buffer before the zero-copy attempt reported a fragment", found=list(actions))
             if ok:
                 rp.ok("DEFRAG-NOCOPY", site(f), key, "%s" % (list(actions),))
-    rp.floor("defragmenter_paths", n_paths, 22)
-    rp.floor("signatures", n_sig, 80)
+    rp.floor("defragmenter_paths", n_paths, 10)
+    rp.floor("signatures", n_sig, 60)
     rp.check(F.meta["unsafe_code_level"] == "Forbid", "SIG-LIFETIMES", "forbid-unsafe", "src/lib.rs", "#![forbid(unsafe_code)] is required for the borrow checker to guarantee that returned slices derive from the input", found=F.meta["unsafe_code_level"])
     rp.assume("rustc's borrow checker: with no unsafe code, a &'a [u8] in a result derives from an input of lifetime 'a or is 'static (the NO-STATIC-BYTES rule excludes the latter for parsed values)")
     rp.assume("nom 7.1.3: take/length_data/number parsers return sub-slices of their input and the rest of it as remainder; map_parser gives the inner parser only the taken slice")
